@@ -4,6 +4,7 @@ import TracingModel.Props.C02
 import TracingModel.Props.C03
 import TracingModel.Props.C05
 import TracingModel.Props.C06
+import TracingModel.Props.C07
 import TracingModel.Props.C08
 import TracingModel.Props.C11
 import TracingModel.Props.C19
